@@ -310,6 +310,13 @@ const fn driver_arrays() {
     assert!(h[2] == 2);
     let z: [(); 3] = konst::array::from_fn_!(|_i| ());
     let _ = z;
+    // a one-off `continue` inside the closure re-runs the element: every slot must still be written
+    let mut once = true;
+    let hc = konst::array::map!(a, |x| { if once { once = false; continue; } x as u16 });
+    assert!(hc[0] == 1 && hc[2] == 3);
+    let mut once = true;
+    let hf: [usize; 3] = konst::array::from_fn!(|i| { if i == 2 && once { once = false; continue; } i });
+    assert!(hf[2] == 2);
     // builder / consumer with Copy elements (no drop in const)
     let mut b = konst::array::ArrayBuilder::<u8, 3>::new();
     b.push(1);
